@@ -49,7 +49,7 @@ ASSUMPTIONS = [
     "class-level access of a decorated method, traced outside any event loop and python -O runs are unspecified",
     "real threads and a real selector loop are used; no verdict depends on timing (the blocking function is released by the heartbeat task itself)",
 ]
-MINIMUMS = {"monitor:transparent": 1500, "monitor:off-loop-thread": 300, "monitor:caller-context": 300, "monitor:no-leak": 300, "monitor:traced-scope": 200, "monitor:mimic": 20, "method_calls": 150, "kwargs_calls": 400}
+MINIMUMS = {"monitor:transparent": 1500, "monitor:off-loop-thread": 300, "monitor:caller-context": 300, "monitor:no-leak": 300, "monitor:traced-scope": 200, "monitor:mimic": 20, "method_calls": 150, "kwargs_calls": 400, "awaitable_results": 100}
 JOBS = {"quick": 4, "thorough": 8}
 LEVEL_TEXT = (
     "Every (signature, call form, outcome) of an 8-signature family is run plainly and through asynchronous (function / method, default / explicit executor, both decorator forms), "
@@ -67,6 +67,13 @@ class Hand(Exception):
 
 class HandBase(BaseException):
     pass
+
+
+class Ticket:
+    """a value object that happens to be awaitable"""
+
+    def __await__(self) -> Any:
+        return iter(())
 
 
 # ---- signature family: every function returns ("name", bound arguments..., probes) ---------------------------------
@@ -106,6 +113,8 @@ def _finish(name: str, bound: tuple[Any, ...], ctl: dict[str, Any]) -> Any:
         ctx.log_info("inside %s", ctl["log"])
     if ctl.get("raise") is not None:
         raise ctl["raise"]
+    if "ret" in ctl:
+        return ctl["ret"]  # the function's result is this very object (an awaitable one: it must come back untouched)
     return (name, *bound)
 
 
@@ -252,6 +261,14 @@ async def one_call(C: Ctx, case: dict[str, Any]) -> None:
         caller_probe = _probe()
         # ---- reference: plain call ----------------------------------------------------------------------------------
         ctl_ref: dict[str, Any] = {"raise": hand}
+        if outcome.startswith("awaitable"):
+            if outcome == "awaitable-future":
+                ret: Any = asyncio.get_running_loop().create_future()
+                ret.set_result(("what the future holds", object()))
+            else:
+                ret = Ticket()
+            ctl_ref["ret"] = ret
+            R.count("awaitable_results")
         K = make_class(decorate) if is_method else None
         inst = K("inst") if K is not None else None
         if K is not None and not deco.startswith("traced"):
@@ -270,6 +287,8 @@ async def one_call(C: Ctx, case: dict[str, Any]) -> None:
             ref = ("raise", exc)
         # ---- decorated call -----------------------------------------------------------------------------------------
         ctl: dict[str, Any] = {"raise": hand, "leak": leak, "cancel_inside": cancel_inside and deco == "traced-async"}
+        if "ret" in ctl_ref:
+            ctl["ret"] = ctl_ref["ret"]
         if deco.startswith("traced"):
             ctl["log"] = "traced-body"
         if deco in ("wrap_async-of-async", "traced-async"):
@@ -310,7 +329,7 @@ async def one_call(C: Ctx, case: dict[str, Any]) -> None:
         n0 = len(C.capture.records)
         try:
             res = wrapped(ctl, *args, **kwargs)
-            if asyncio.iscoroutine(res) or isinstance(res, asyncio.Future):
+            if deco != "traced":  # every other variant produces an async callable: await exactly once (traced of a sync function stays sync)
                 res = await res
             got: tuple[str, Any] = ("value", res)
         except BaseException as exc:  # noqa: BLE001
@@ -475,8 +494,10 @@ def cases(tier: str, rng: random.Random):  # noqa: ANN201
             if fname == "method" and deco in ("wrap_async-of-async", "traced-async", "asynchronous-call"):
                 continue
             nforms = len(METHOD_FORMS if fname == "method" else FORMS[fname])
-            for form_i, outcome, depth in itertools.product(range(nforms), ("value", "raise", "raise-base", "cancelled"), depths):
+            for form_i, outcome, depth in itertools.product(range(nforms), ("value", "raise", "raise-base", "cancelled", "awaitable-future", "awaitable-object"), depths):
                 if outcome == "cancelled" and deco != "traced-async":
+                    continue
+                if outcome.startswith("awaitable") and (depth not in (0, 2) or form_i > 1):
                     continue
                 if outcome == "raise-base" and (form_i + depth) % 2:
                     continue
